@@ -5,7 +5,7 @@
 From Coq Require Import ZArith NArith Reals List String Bool.
 From Flocq Require Import Core BinarySingleNaN.
 From SV Require Import Num.Mod360 Num.Mod360Proofs Num.AngleSites Num.AngleSitesProofs
-                       Num.Dec6 Num.Dec6Proofs Num.Dec6CarveProofs SM.FrozenOps SM.FrozenOpsProofs.
+                       Num.Dec6 Num.Dec6Proofs Num.Dec6CarveProofs Num.VecText Num.VecTextProofs SM.FrozenOps SM.FrozenOpsProofs.
 Import ListNotations.
 
 (** ------------------------------------------------------------------ (a) range *)
@@ -123,3 +123,36 @@ Theorem c05_format6_shape_refuted :
   format6 cfg_pinned {| dneg := true; dm := 1; de := (-30)%Z |} = [45; 48]%N /\
   shape_ok (fmt_parts cfg_pinned {| dneg := true; dm := 1; de := (-30)%Z |}) = false.
 Proof. exact format6_shape_refuted. Qed.
+
+(** ------------------------------------------------------------------ (c) text: reading back *)
+
+(** every number written by format_float (any pipeline, any dyadic, the carved-out "-0" included) is decoded by the
+    plain-decimal reader to an exact decimal within 5e-7 of the number *)
+Theorem c05_parse_format6 : forall c x, exists d, parse_decimal (format6 c x) = Some d /\ within_5e7 d x.
+Proof. exact parse_format6. Qed.
+
+(** parse_vec_str (as read from the source, [pcfg_ok]) applied to three formatted numbers separated by non-empty
+    whitespace, optionally wrapped in one opening and/or one closing bracket of the source's sets, with arbitrary
+    whitespace outside and inside the brackets: three fields, each decoded within 5e-7 of its component *)
+Theorem c05_parse_format_vec : forall pc c x y z ws1 ob wa s1 s2 wb cb ws2,
+  pcfg_ok pc = true ->
+  all_space ws1 -> all_space wa -> all_space wb -> all_space ws2 ->
+  all_space s1 -> s1 <> [] -> all_space s2 -> s2 <> [] ->
+  opt_bracket (opens pc) ob -> opt_bracket (closes pc) cb ->
+  exists dx dy dz,
+    parse_vec pc (ws1 ++ ob ++ wa ++ format6 c x ++ s1 ++ format6 c y ++ s2 ++ format6 c z ++ wb ++ cb ++ ws2)
+      = PFields (Some dx) (Some dy) (Some dz) /\
+    within_5e7 dx x /\ within_5e7 dy y /\ within_5e7 dz z.
+Proof. exact parse_format_vec. Qed.
+
+(** str(vec) / str(angle) itself *)
+Theorem c05_parse_str_vec : forall pc c x y z, pcfg_ok pc = true ->
+  exists dx dy dz, parse_vec pc (vec_text c x y z) = PFields (Some dx) (Some dy) (Some dz) /\
+    within_5e7 dx x /\ within_5e7 dy y /\ within_5e7 dz z.
+Proof. exact parse_str_vec. Qed.
+
+(** without strip() the bracket after a leading space is not removed and the first field is lost *)
+Theorem c05_parse_nostrip_refuted :
+  parse_vec {| strips_ws := false; opens := [40]%N; closes := [41]%N; splits_ws := true; uses_float := true |} [32; 40; 49; 32; 50; 32; 51; 41]%N
+  = PFields None (Some (false, 2%N, O)) (Some (false, 3%N, O)).
+Proof. exact parse_nostrip_refuted. Qed.
